@@ -12,6 +12,7 @@ pub fn entries() -> Vec<(&'static str, crate::EntryFn)> {
         ("settings-serde", entry_serde),
         ("settings-clap", entry_clap),
         ("settings-default", entry_default),
+        ("gather", entry_gather),
     ]
 }
 
@@ -131,3 +132,33 @@ fn entry_clap(args: &[&str]) -> String {
 }
 
 fn entry_default(_args: &[&str]) -> String { show_constructed(Ok(TimeoutSettings::default())) }
+
+/// `gather <s|t|e> <ok|ErrorKindName>`: `maybe_gather!` on a section whose gathering function returned that outcome
+fn entry_gather(args: &[&str]) -> String {
+    use gamedig::errors::GDErrorKind as K;
+    use gamedig::protocols::types::GatherToggle;
+    if args.len() != 2 {
+        return "bad-case".into();
+    }
+    let toggle = match args[0] {
+        "s" => GatherToggle::Skip,
+        "t" => GatherToggle::Try,
+        "e" => GatherToggle::Enforce,
+        _ => return "bad-case".into(),
+    };
+    let kinds = [
+        K::PacketOverflow, K::PacketUnderflow, K::PacketBad, K::PacketSend, K::PacketReceive, K::Decompress, K::SocketConnect,
+        K::SocketBind, K::InvalidInput, K::BadGame, K::AutoQuery, K::ProtocolFormat, K::UnknownEnumCast, K::JsonParse,
+        K::TypeParse, K::HostLookup,
+    ];
+    let outcome = if args[1] == "ok" {
+        Ok(7u8)
+    } else {
+        match kinds.iter().find(|k| crate::canon::kind_name(k) == args[1]) {
+            Some(k) => Err(k.clone().context("scripted section failure")),
+            None => return "bad-case".into(),
+        }
+    };
+    let r = gamedig::verif_hook::maybe_gather(toggle, outcome);
+    crate::canon::show_res(&r, |o| crate::canon::show_opt(o, |v| v.to_string()))
+}
